@@ -49,7 +49,7 @@ var c32R *c32Roles
 func c32Resolve(c *an.Ctx) *c32Roles {
 	R := &c32Roles{}
 	isBool := func(t types.Type) bool { return types.Identical(t.Underlying(), types.Typ[types.Bool]) }
-	var preds []*ssa.Function
+	var preds, labels []*ssa.Function
 	for _, f := range c.P.PkgFuncs(c30Gw) {
 		if f.Parent() != nil {
 			continue
@@ -82,7 +82,7 @@ func c32Resolve(c *an.Ctx) *c32Roles {
 		case sig.Recv() == nil && rs.Len() == 2 && c30IsString(rs.At(0).Type()) && an.IsErrorType(rs.At(1).Type()) && has("net/http", "Request", true) && has(c30Gw, "IPFSBackend", false):
 			R.tsu = f
 		case sig.Recv() == nil && rs.Len() == 2 && c30IsString(rs.At(0).Type()) && an.IsErrorType(rs.At(1).Type()) && len(ps) == 2 && c30IsString(ps[0]) && an.TypeIs(ps[1], c32Cid, "Cid"):
-			R.label = f
+			labels = append(labels, f)
 		case rs.Len() == 5 && isBool(rs.At(4).Type()) && c30IsString(rs.At(1).Type()) && c30IsString(rs.At(2).Type()) && c30IsString(rs.At(3).Type()):
 			if pt, ok := rs.At(0).Type().(*types.Pointer); ok && an.TypeIs(pt.Elem(), c30Gw, "PublicGateway") {
 				R.details = f
@@ -113,6 +113,55 @@ func c32Resolve(c *an.Ctx) *c32Roles {
 			}
 		}
 		return false
+	}
+	// several functions may share the label signature (a wrapper that prepares the CID and then
+	// asks for the label): the label function is the innermost one, which calls no other candidate
+	var inner []*ssa.Function
+	for _, f := range labels {
+		callsOther := false
+		for _, g := range labels {
+			if g != f && calls(f, g) {
+				callsOther = true
+			}
+		}
+		if !callsOther {
+			inner = append(inner, f)
+		}
+	}
+	if len(inner) > 1 {
+		// ... and it is the one that measures a string (len compared with a constant, in it or in a predicate it calls)
+		var measuring []*ssa.Function
+		for _, f := range inner {
+			found := false
+			for _, g := range c31WithCallees(f) {
+				an.Instrs(g, func(in ssa.Instruction) {
+					b, ok := in.(*ssa.BinOp)
+					if !ok {
+						return
+					}
+					for _, pr := range [][2]ssa.Value{{b.X, b.Y}, {b.Y, b.X}} {
+						call, isCall := pr[0].(*ssa.Call)
+						if _, isK := an.IntConst(pr[1]); !isK || !isCall {
+							continue
+						}
+						if bi, ok := call.Call.Value.(*ssa.Builtin); ok && bi.Name() == "len" && c30IsString(call.Call.Args[0].Type()) {
+							found = true
+						}
+					}
+				})
+			}
+			if found {
+				measuring = append(measuring, f)
+			}
+		}
+		if len(measuring) == 1 {
+			inner = measuring
+		}
+	}
+	if len(inner) == 1 {
+		R.label = inner[0]
+	} else if len(inner) > 1 {
+		c.Problem("package gateway: %d functions (string, cid.Cid) -> (string, error) that do not call each other: the CID label role is ambiguous", len(inner))
 	}
 	for _, pf := range preds {
 		if calls(R.details, pf) {
@@ -494,13 +543,79 @@ func c32Subdomain(c *an.Ctx) {
 			strParams = append(strParams, q)
 		}
 	}
-	splits := an.Calls(fn, an.M("strings", "", "SplitN"))
-	if !c.Need(reqP != nil && len(strParams) == 2 && len(splits) == 1, "toSubdomainURL(hostname, path string, r *http.Request, ...) with one strings.SplitN") {
+	// the path split: in the function itself or in a package-local function it calls
+	local := c31WithCallees(fn)
+	inL := map[*ssa.Function]bool{}
+	for _, g := range local {
+		inL[g] = true
+	}
+	var splits []ssa.CallInstruction
+	var sfn *ssa.Function
+	for _, g := range local {
+		if ss := an.Calls(g, an.M("strings", "", "SplitN")); len(ss) > 0 {
+			splits = append(splits, ss...)
+			sfn = g
+		}
+	}
+	if !c.Need(reqP != nil && len(strParams) == 2 && len(splits) == 1 && an.CallValue(splits[0]) != nil, "path->subdomain-URL function (two string parameters, *http.Request) with one strings.SplitN in it or in a package-local function it calls") {
 		return
 	}
 	split := an.CallValue(splits[0])
+	// res: the roots of v, with parameters of package-local functions replaced by the arguments at
+	// their call sites and results of the split function replaced by what it returns
+	var resD func(v ssa.Value, depth int) []ssa.Value
+	resD = func(v ssa.Value, depth int) []ssa.Value {
+		var out []ssa.Value
+		for _, r := range an.Roots(v, nil) {
+			if prm, ok := r.(*ssa.Parameter); ok && prm.Parent() != fn && inL[prm.Parent()] && depth < 5 {
+				g := prm.Parent()
+				n := 0
+				for i, q := range g.Params {
+					if q != prm {
+						continue
+					}
+					for _, m := range local {
+						for _, cl := range an.AllCalls(m) {
+							if an.Callee(cl).Static == g && i < len(cl.Common().Args) {
+								n++
+								out = append(out, resD(cl.Common().Args[i], depth+1)...)
+							}
+						}
+					}
+				}
+				if n > 0 {
+					continue
+				}
+			}
+			if sfn != fn && depth < 5 {
+				call, k := (*ssa.Call)(nil), 0
+				switch x := r.(type) {
+				case *ssa.Call:
+					call = x
+				case *ssa.Extract:
+					call, _ = x.Tuple.(*ssa.Call)
+					k = x.Index
+				}
+				if call != nil && an.Callee(call).Static == sfn {
+					for _, ret := range an.Returns(sfn) {
+						if k < len(ret.Results) {
+							out = append(out, resD(ret.Results[k], depth+1)...)
+						}
+					}
+					continue
+				}
+			}
+			out = append(out, r)
+		}
+		return out
+	}
+	res := func(v ssa.Value) []ssa.Value { return resD(v, 0) }
 	for _, q := range strParams {
-		if split.Call.Args[0] == ssa.Value(q) {
+		isPath := false
+		for _, r := range res(split.Call.Args[0]) {
+			isPath = r == ssa.Value(q)
+		}
+		if isPath {
 			pathP = q
 		} else {
 			hostP = q
@@ -523,22 +638,7 @@ func c32Subdomain(c *an.Ctx) {
 			}
 		}
 	}
-	var res func(v ssa.Value) []ssa.Value
-	res = func(v ssa.Value) []ssa.Value {
-		var out []ssa.Value
-		for _, r := range an.Roots(v, nil) {
-			if prm, ok := r.(*ssa.Parameter); ok && acall != nil && prm.Parent() == afn {
-				for i, q := range afn.Params {
-					if q == prm && i < len(acall.Call.Args) {
-						out = append(out, an.Roots(acall.Call.Args[i], nil)...)
-					}
-				}
-				continue
-			}
-			out = append(out, r)
-		}
-		return out
-	}
+
 	seg := func(v ssa.Value) int64 {
 		// v is a load of parts[k] (possibly through phis): returns k or -1
 		k := int64(-1)
@@ -633,6 +733,7 @@ func c32Subdomain(c *an.Ctx) {
 					for _, r := range res(v) {
 						switch {
 						case isSeg2(r):
+						case c30IsEmptyStr(r): // the zero value where the path has no such segment
 						default:
 							call, ok := r.(*ssa.Call)
 							if ex, isEx := r.(*ssa.Extract); isEx {
@@ -646,6 +747,10 @@ func c32Subdomain(c *an.Ctx) {
 							case ci.Static == c32R.label:
 								// (string of the rebuilt CID, rebuilt CID): the rebuilt CID is checked by the NewCidV1 obligations
 								if !c32IsRebuild(call.Call.Args[1], 0) {
+									return false
+								}
+								// the label function hands its string argument back when it fits: that string must name the same content
+								if !fromSeg2(call.Call.Args[0], depth+1) {
 									return false
 								}
 							case ci.Name == "InlineDNSLink" && ci.Pkg == an.Mod+"/"+c30Gw:
@@ -667,6 +772,29 @@ func c32Subdomain(c *an.Ctx) {
 								}
 							case ci.Name == "StringOfBase" && ci.Recv == "Cid":
 								if !c32IsRebuild(an.Recv(call), 0) {
+									return false
+								}
+							case ci.Static != nil && inL[ci.Static] && ci.Static != fn && len(ci.Static.Blocks) > 0:
+								// a package-local function that produces the label: each label it returns derives the same way
+								k := 0
+								if ex, isEx := r.(*ssa.Extract); isEx {
+									k = ex.Index
+								}
+								n := 0
+								for _, ret := range an.Returns(ci.Static) {
+									if k >= len(ret.Results) {
+										return false
+									}
+									last := ret.Results[len(ret.Results)-1]
+									if an.IsErrorType(last.Type()) && !an.IsNilConst(last) && c30IsEmptyStr(ret.Results[k]) {
+										continue // error return: no label
+									}
+									n++
+									if !fromSeg2(ret.Results[k], depth+1) {
+										return false
+									}
+								}
+								if n == 0 {
 									return false
 								}
 							default:
@@ -710,6 +838,28 @@ func c32Subdomain(c *an.Ctx) {
 		}
 	})
 	fromReqURL := func(v ssa.Value, field string) bool {
+		// a value snapshotted into a field of a non-escaping local struct (single store that
+		// dominates the read) is the stored value
+		for i := 0; i < 3; i++ {
+			u, ok := v.(*ssa.UnOp)
+			if !ok || u.Op != token.MUL {
+				break
+			}
+			fa, ok := u.X.(*ssa.FieldAddr)
+			if !ok {
+				break
+			}
+			a, ok := fa.X.(*ssa.Alloc)
+			if !ok {
+				break
+			}
+			f, _ := an.FieldOf(fa)
+			sts, okSt := c42LocalFieldStores(a, f)
+			if !okSt || len(sts) != 1 || !an.Dominates(sts[0], u) {
+				break
+			}
+			v = sts[0].Val
+		}
 		b, ok := c32FieldLoadOf(v, "net/url", "URL", field)
 		if !ok {
 			return false
@@ -720,8 +870,17 @@ func c32Subdomain(c *an.Ctx) {
 		}
 		for _, x := range rs {
 			rb, ok := c32FieldLoadOf(x, "net/http", "Request", "URL")
-			if !ok || rb != ssa.Value(reqP) {
+			if !ok {
 				return false
+			}
+			rr := res(rb)
+			if len(rr) == 0 {
+				return false
+			}
+			for _, y := range rr {
+				if y != ssa.Value(reqP) {
+					return false
+				}
 			}
 		}
 		return true
